@@ -228,7 +228,7 @@ def run(ctx: Ctx) -> int:
                      f"INVARIANT CollisionCount\nCONSTANT SubStep = {step}\n", timeout=1200)
     cs = cases(ctx)
     vectors = collect(ctx, cs)
-    vectors += collect(ctx, cs[3::11], ver=3)        # ... and on authenticated V3 objects (the exposed state includes the credentials held)
+    vectors += collect(ctx, cs[3::ctx.pick(11, 41)], ver=3)        # ... and on authenticated V3 objects (the exposed state includes the credentials held)
     for v in vectors:
         ctx.count_distinct((v["kind"], v["style"], v["pos"], v["sub"], v["fix"]))
     judge(ctx, vectors)
